@@ -76,6 +76,12 @@ _MESH_SHAPES = [(3, 3), (3, 4), (4, 3), (4, 5), (3, 5), (5, 3), (4, 4)]
 
 def _gen_rect(rng, tier):
     nrng = gens.np_rng(rng)
+    # meshes whose pixel count crosses 2^15 and 2^16 (index tables held in a narrow integer type wrap there); few data pixels
+    for shape in ((182, 181), (257, 257)):
+        m = np.array([[False, False], [False, False]])
+        sub = np.array([2, 1, 2, 2])
+        g = _sub_grid(m, sub, (1.0, 1.0), (0.3, -0.7))
+        yield {"mask": m, "sub": sub, "source": _distort(nrng, g, jitter=0.3), "mesh_shape": shape}
     for k, mask in enumerate(_masks(rng, tier, 3000, 30000)):
         n = int((~mask).sum())
         sub = _sub_map(rng, n, tier, k)
@@ -105,7 +111,9 @@ def _gen_delaunay(rng, tier):
                 mesh[j] = src[rng.randrange(len(src))]
             if len({tuple(p) for p in mesh.tolist()}) < npts:
                 continue
-        yield {"mask": mask, "sub": sub, "source": src, "mesh_points": mesh}
+        # the source plane has no natural unit: the same configuration at 2^-13, 2^-20 (arc-second fractions, radians) and 2^10
+        f = 1.0 if rng.random() < 0.7 else float(rng.choice([2.0 ** -13, 2.0 ** -20, 2.0 ** 10]))
+        yield {"mask": mask, "sub": sub, "source": src * f, "mesh_points": mesh * f}
 
 
 # ----------------------------------------------------------------------------------------------------------------------
